@@ -37,6 +37,7 @@ def items(tier, seed):
         out.append({"P": P, "k": r.randint(1, size + 3), "v": v})
     for i, it in enumerate(out):
         it["rid"] = i
+        it["used"] = i % 4      # 0 fresh object, 1 init() called, 2 solved by a solver before, 3 a solver abandoned after one step
     return out
 
 
